@@ -11,6 +11,7 @@
     replace  <cname> ...                           callees replaced by their contracts in this proof
     flags    <extra cbmc flags>
     level    L1|L2|L3
+    noexcept_doc <C expression>                    documented noexcept condition; compared with the compiler-evaluated specification (C18)
     harness
       <C statements>
     end
@@ -30,6 +31,8 @@ class FnSpec:
         self.replace = []; self.flags = []; self.level = 'L2'; self.harness = None; self.timeout = None; self.solver = None
         self.cases = []      # [(name, C condition over the harness variables)]
         self.notes = []
+        self.noexcept_expr = None  # C++ call expression over E, A, V, VM whose noexcept-ness the compiler evaluates (declared specification)
+        self.noexcept_doc = None   # documented noexcept condition (C expression over FACT_* / CFG_* macros)
 
 TAGRE = re.compile(r'^\[([A-Za-z0-9_, ]+)\]\s*')
 
@@ -155,6 +158,10 @@ def parse_file(path):
             cur.cases.append((nm.strip(), cond.strip()))
         elif kw == 'note':
             cur.notes.append(rest)
+        elif kw == 'noexcept_doc':
+            cur.noexcept_doc = rest.strip()
+        elif kw == 'noexcept_expr':
+            cur.noexcept_expr = rest.strip()
         else:
             raise SyntaxError('%s: unknown clause %r' % (s0, kw))
     if cur is not None:
